@@ -7,6 +7,8 @@ import Drivers.RotD
 import Drivers.CodecD
 import Drivers.TimerD
 import Drivers.XmlD
+import Drivers.LogD
+import Drivers.SchedD
 
 def main (args : List String) : IO UInt32 := do
   let stdin ← IO.getStdin
@@ -21,4 +23,6 @@ def main (args : List String) : IO UInt32 := do
   | ["codec"] => Drivers.loop stdin () (fun _ l => ((), Drivers.CodecD.step l)); return 0
   | ["timer"] => Drivers.loop stdin ({} : Drivers.TimerD.St) Drivers.TimerD.step; return 0
   | ["xml"] => Drivers.loop stdin () (fun _ l => ((), Drivers.XmlD.step l)); return 0
+  | ["log"] => Drivers.loop stdin ({} : Drivers.LogD.St) Drivers.LogD.step; return 0
+  | ["sched"] => Drivers.loop stdin () (fun _ l => ((), Drivers.SchedD.step l)); return 0
   | _ => IO.eprintln "usage: driver <stream>"; return 2
